@@ -15,8 +15,9 @@ RULE = ('two families. (call) pretty_call / pretty_call_alt invoked with: callab
         'given string); positional count/order and keyword names in the given order; each argument sub-tree == AST of the '
         'argument printed alone; evaluation with a recording callable yields the given (args, kwargs) type-strictly. '
         '(class) generated dataclass / attrs definitions: 0-5 fields, names from the same pool, each with no default / '
-        'default value / default factory (attrs: also takes_self), repr flag, frozen / slots variants, instance values at '
-        'or away from the default. Oracle: keyword names == those computed from the definition recipe (declaration order, '
+        'default value / default factory (attrs: also takes_self; factories returning nested dataclass/attrs instances), repr '
+        'flag, frozen / slots variants, instance values (incl. nested dataclass/attrs instances, alone or inside lists and '
+        'dicts) at or away from the default; sort_dict_keys on and off. Oracle: keyword names == those computed from the definition recipe (declaration order, '
         'repr enabled, no default or value != default); no fallback warning; when every hidden field is at its default, '
         'eval reconstructs an equal instance of the same class. Exhaustive: single-field definitions x every default kind '
         'x repr x value-at/away x lib x frozen/slots; random: Hypothesis. non-trivial: (call) >= 2 arguments of which >= 1 '
@@ -28,7 +29,16 @@ BUDGET = {'quick': {'random': 8000, 'shards': 16}, 'thorough': {'random': 300000
 KW_POOL_ALT = ['a', 'b', 'key', 'fn', 'ctx', 'args', 'kwargs', 'self', 'value', 'é']
 KW_POOL_CALL = ['a', 'b', 'key', 'args', 'kwargs', 'self', 'value', 'é']
 FIELD_POOL = ['a', 'b', 'x', 'value', 'name', 'fn', 'ctx', 'args', 'kwargs', 'cls']
-FACTORIES = {'list': list, 'dict': dict, 'int': int, 'seven': lambda: 7, 'text': lambda: 'dflt'}
+FACTORIES = {'list': list, 'dict': dict, 'int': int, 'seven': lambda: 7, 'text': lambda: 'dflt',
+             'dinner': lambda: _dyn().DInner(), 'dfrozen1': lambda: _dyn().DFrozen(1), 'ainner': lambda: _dyn().AInner(),
+             'dinner-list': lambda: [_dyn().DInner(1, [2])]}
+
+
+def _dyn():
+    from .. import dyn
+    return dyn
+
+
 _installed = []
 
 
@@ -42,25 +52,47 @@ def _install():
         _installed.append(True)
 
 
-def deep_same(a, b):
+def deep_same(a, b, ordered=True):
+    """ordered=False: plain dict *values* are compared without their key order (sort_dict_keys reorders them);
+    keyword arguments of calls always keep the given order"""
+    import dataclasses
+    import attr
+    if dataclasses.is_dataclass(a) and not isinstance(a, type):
+        return type(a) is type(b) and all(deep_same(getattr(a, f.name), getattr(b, f.name), ordered) for f in dataclasses.fields(a))
+    if attr.has(type(a)):
+        return type(a) is type(b) and all(deep_same(getattr(a, f.name), getattr(b, f.name), ordered) for f in attr.fields(type(a)))
     if isinstance(a, vtypes.Box):
-        return (type(a) is type(b) and len(a.args) == len(b.args) and all(deep_same(x, y) for x, y in zip(a.args, b.args))
-                and list(a.kwargs) == list(b.kwargs) and all(deep_same(a.kwargs[k], b.kwargs[k]) for k in a.kwargs))
+        return (type(a) is type(b) and len(a.args) == len(b.args) and all(deep_same(x, y, ordered) for x, y in zip(a.args, b.args))
+                and list(a.kwargs) == list(b.kwargs) and all(deep_same(a.kwargs[k], b.kwargs[k], ordered) for k in a.kwargs))
     if type(a) is not type(b):
         return False
     if type(a) in (list, tuple):
-        return len(a) == len(b) and all(deep_same(x, y) for x, y in zip(a, b))
+        return len(a) == len(b) and all(deep_same(x, y, ordered) for x, y in zip(a, b))
     if type(a) is dict:
-        return len(a) == len(b) and all(deep_same(k1, k2) and deep_same(v1, v2) for (k1, v1), (k2, v2) in zip(a.items(), b.items()))
-    return eqv.same(a, b)
+        if len(a) != len(b):
+            return False
+        if ordered:
+            return all(deep_same(k1, k2, ordered) and deep_same(v1, v2, ordered) for (k1, v1), (k2, v2) in zip(a.items(), b.items()))
+        rest = list(b.items())
+        for k1, v1 in a.items():
+            for i, (k2, v2) in enumerate(rest):
+                if deep_same(k1, k2, ordered) and deep_same(v1, v2, ordered):
+                    del rest[i]
+                    break
+            else:
+                return False
+        return True
+    return eqv.same(a, b, 'keep' if ordered else 'sort')
 
 
 # ---------------------------------------------------------------------------
 # generation
 
 def enumerate_cases(tier):
-    vals = [['int', 0], ['int', 5], ['list', []], ['str', 'dflt']]
-    defaults = [['none'], ['val', ['int', 0]], ['val', ['str', 'dflt']], ['val', ['float', 'nan']], ['fac', 'list'], ['fac', 'seven'], ['facself']]
+    vals = [['int', 0], ['int', 5], ['list', []], ['str', 'dflt'], ['dcinst', 'DInner', []], ['dcinst', 'DFrozen', [['int', 1]]],
+            ['list', [['dcinst', 'DInner', [['int', 1], ['list', [['int', 2]]]]]]], ['dcinst', 'AInner', []]]
+    defaults = [['none'], ['val', ['int', 0]], ['val', ['str', 'dflt']], ['val', ['float', 'nan']], ['fac', 'list'], ['fac', 'seven'], ['facself'],
+                ['fac', 'dinner'], ['fac', 'dfrozen1'], ['fac', 'ainner'], ['fac', 'dinner-list']]
     for lib in ('dc', 'attrs'):
         for frozen in (False, True):
             for slots in (False, True):
@@ -84,7 +116,7 @@ def enumerate_cases(tier):
             for a in arglists:
                 for kw in kwlists:
                     for w in (10, 79):
-                        yield {'kind': 'call', 'fn': fn, 'mode': mode, 'args': a, 'kwargs': kw, 'width': w, 'indent': 4}
+                        yield {'kind': 'call', 'fn': fn, 'mode': mode, 'args': a, 'kwargs': kw, 'width': w, 'indent': 4, 'sort': w == 10}
     for kw in ([['fn', ['int', 1]], ['ctx', ['int', 2]]], [['ctx', ['list', []]]]):
         for mode in ('alt-list', 'alt-odict', 'alt-dict'):
             yield {'kind': 'call', 'fn': 'Box', 'mode': mode, 'args': [], 'kwargs': kw, 'width': 79, 'indent': 4}
@@ -109,12 +141,20 @@ def strategy(tier):
         'kind': st.just('call'), 'fn': st.sampled_from(sorted(vtypes.CALLABLES)),
         'mode': st.sampled_from(['alt-list', 'alt-odict', 'alt-dict']),
         'args': st.lists(arg, max_size=4), 'kwargs': kwargs_for(KW_POOL_ALT),
-        'width': st.one_of(st.integers(1, 100), st.just(79)), 'indent': st.sampled_from([1, 2, 4, 8])})
+        'width': st.one_of(st.integers(1, 100), st.just(79)), 'indent': st.sampled_from([1, 2, 4, 8]), 'sort': st.booleans()})
     call_plain = st.fixed_dictionaries({
         'kind': st.just('call'), 'fn': st.sampled_from(sorted(vtypes.CALLABLES)), 'mode': st.just('call'),
         'args': st.lists(arg, max_size=4), 'kwargs': kwargs_for(KW_POOL_CALL),
-        'width': st.one_of(st.integers(1, 100), st.just(79)), 'indent': st.sampled_from([1, 2, 4, 8])})
-    small = st.one_of(S['leaf'], st.recursive(S['leaf'], S['value_ext'], max_leaves=4))
+        'width': st.one_of(st.integers(1, 100), st.just(79)), 'indent': st.sampled_from([1, 2, 4, 8]), 'sort': st.booleans()})
+    inner = st.one_of(
+        st.tuples(S['leaf'], st.lists(S['leaf'], max_size=2).map(lambda xs: ['list', xs])).map(lambda p: ['dcinst', 'DInner', [p[0], p[1]]]),
+        st.just(['dcinst', 'DInner', []]), st.just(['dcinst', 'DFrozen', [['int', 1]]]), st.just(['dcinst', 'AInner', []]),
+        st.tuples(S['leaf'], S['leaf']).map(lambda p: ['dcinst', 'DFrozen', [p[0], p[1]]]),
+        S['leaf'].map(lambda x: ['dcinst', 'AInner', [x]]),
+    )
+    small = st.one_of(S['leaf'], st.recursive(S['leaf'], S['value_ext'], max_leaves=4), inner,
+                      st.lists(inner, max_size=2).map(lambda xs: ['list', xs]),
+                      st.tuples(S['r_str'], inner).map(lambda p: ['dict', [[p[0], p[1]]]]))
     default = st.one_of(st.just(['none']), small.map(lambda r: ['val', r]),
                         st.sampled_from(sorted(FACTORIES)).map(lambda k: ['fac', k]), st.just(['facself']))
     field = st.fixed_dictionaries({
@@ -123,7 +163,7 @@ def strategy(tier):
     cls = st.fixed_dictionaries({
         'kind': st.just('class'), 'lib': st.sampled_from(['dc', 'attrs']), 'frozen': st.booleans(), 'slots': st.booleans(),
         'fields': st.lists(field, max_size=5, unique_by=lambda f: f['name']),
-        'width': st.one_of(st.integers(1, 100), st.just(79)), 'indent': st.sampled_from([2, 4])})
+        'width': st.one_of(st.integers(1, 100), st.just(79)), 'indent': st.sampled_from([2, 4]), 'sort': st.booleans()})
     return st.one_of(call_alt, call_plain, cls, cls)
 
 
@@ -156,7 +196,7 @@ def oracle_call(case):
     args = tuple(values.build(a) for a in case['args'])
     kwargs = [(k, values.build(v)) for k, v in case['kwargs']]
     spec = vtypes.CallSpec(fn, args, kwargs, case['mode'])
-    cfg = {'width': case['width'], 'ribbon_width': case['width'], 'indent': case['indent']}
+    cfg = {'width': case['width'], 'ribbon_width': case['width'], 'indent': case['indent'], 'sort_dict_keys': bool(case.get('sort'))}
     p = values.pp(spec, **cfg)
     labels = ['call', case['mode']]
     if p.exc is not None:
@@ -196,9 +236,10 @@ def oracle_call(case):
     a_got, k_got = rec[0]
     plain_args = [unwrap_comments(a)[0] for a in args]
     plain_kwargs = [(k, unwrap_comments(v)[0]) for k, v in kwargs]
-    if not (len(a_got) == len(plain_args) and all(deep_same(x, y) for x, y in zip(plain_args, a_got))):
+    ordered = not case.get('sort')
+    if not (len(a_got) == len(plain_args) and all(deep_same(x, y, ordered) for x, y in zip(plain_args, a_got))):
         return core.viol('call-args-differ', 'given %r evaluated %r' % (plain_args, a_got), labels)
-    if list(k_got) != [k for k, _ in plain_kwargs] or not all(deep_same(v, k_got[k]) for k, v in plain_kwargs):
+    if list(k_got) != [k for k, _ in plain_kwargs] or not all(deep_same(v, k_got[k], ordered) for k, v in plain_kwargs):
         return core.viol('call-kwargs-differ', 'given %r evaluated %r' % (plain_kwargs, k_got), labels)
     n = len(args) + len(kwargs)
     rich = any(values.has_container(r) or r[0] == 'call' for r in case['args'] + [v for _, v in case['kwargs']])
@@ -304,7 +345,7 @@ def oracle_class(case):
         inst = cls(**kwargs)
     except Exception:
         return core.skip('instance-rejected')
-    cfg = {'width': case['width'], 'ribbon_width': case['width'], 'indent': case['indent']}
+    cfg = {'width': case['width'], 'ribbon_width': case['width'], 'indent': case['indent'], 'sort_dict_keys': bool(case.get('sort'))}
     p = values.pp(inst, **cfg)
     labels = ['class', case['lib']]
     if p.exc is not None:
@@ -329,7 +370,7 @@ def oracle_class(case):
             return core.viol('class-differs', repr(type(back)), labels)
         for f in fields:
             a, b = getattr(inst, f['name']), getattr(back, f['name'])
-            if not (deep_same(a, b) or a == b):
+            if not (deep_same(a, b, not case.get('sort')) or a == b):
                 return core.viol('field-differs', '%s: %r vs %r' % (f['name'], a, b), labels)
     omitted = len(fields) - len(expected)
     return core.ok(omitted >= 1 and len(expected) >= 1, labels)
